@@ -28,6 +28,53 @@ pub fn unhex(s: &str) -> Vec<u8> {
     v
 }
 
+/// A value whose equality with "the argument" is dictated by a flag (elements among themselves compare by id).
+#[derive(Clone, Debug)]
+struct PatV {
+    id: u32,
+    matches_arg: bool,
+    is_arg: bool,
+}
+impl PartialEq for PatV {
+    fn eq(&self, o: &PatV) -> bool {
+        if self.is_arg {
+            o.matches_arg
+        } else if o.is_arg {
+            self.matches_arg
+        } else {
+            self.id == o.id
+        }
+    }
+}
+
+/// storage_step <append|fetch_or_append|lookup> <pattern of 0/1: which stored values equal the argument>
+fn storage_step(op: &str, pat: &str) -> String {
+    use rspirv::sr::storage::Storage;
+    let flags: Vec<bool> = if pat == "-" { vec![] } else { pat.chars().map(|c| c == '1').collect() };
+    let mut s: Storage<PatV> = Storage::new();
+    let mut toks = Vec::new();
+    for (i, f) in flags.iter().enumerate() {
+        toks.push(s.append(PatV { id: i as u32, matches_arg: *f, is_arg: false }));
+    }
+    let arg = PatV { id: 1_000_000, matches_arg: false, is_arg: true };
+    let t = match op {
+        "append" => s.append(arg),
+        _ => s.fetch_or_append(arg),
+    };
+    let mut kept = true;
+    for (i, tok) in toks.iter().enumerate() {
+        let v = &s[*tok];
+        if tok.index() as usize != i || v.id != i as u32 || v.is_arg {
+            kept = false;
+        }
+    }
+    // the length is not exposed: one more append tells it
+    let probe = s.append(PatV { id: 2_000_000, matches_arg: false, is_arg: false });
+    let len = probe.index();
+    let appended_is_arg = (t.index() as usize) < len as usize && s[t].is_arg;
+    format!("{{\"index\": {}, \"len\": {}, \"kept\": {}, \"yields_arg\": {}}}", t.index(), len, kept, appended_is_arg)
+}
+
 pub fn dispatch(p: &[String]) -> String {
     match p[0].as_str() {
         "from_u32" => generated::from_u32(&p[1], p[2].parse::<u32>().unwrap()),
@@ -38,6 +85,7 @@ pub fn dispatch(p: &[String]) -> String {
         "from_bits" => generated::from_bits(&p[1], p[2].parse::<u32>().unwrap()),
         "operand_params" => generated::operand_params(&p[1], p[2].parse::<u32>().unwrap_or(0)),
         "operand_requires" => generated::operand_requires(&p[1], p[2].parse::<u32>().unwrap_or(0)),
+        "builder_ids" => generated::builder_ids(&p[1], p[2].parse::<u32>().unwrap_or(2), p[3].parse::<u32>().unwrap_or(5), p.len() > 4 && p[4] == "implicit"),
         "builder_roundtrip" => generated::builder_roundtrip(&p[1]),
         "builder_call" => generated::builder_call(&p[1], p[2].parse::<u32>().unwrap_or(2)),
         "scenario" => {
@@ -60,6 +108,7 @@ pub fn dispatch(p: &[String]) -> String {
                 Err(e) => format!("{{\"result\": {}}}", jstr(&format!("Err({:?})", e))),
             }
         }
+        "storage_step" => storage_step(&p[1], if p.len() > 2 { &p[2] } else { "-" }),
         "lift_probe" => generated::lift_probe(p[1].parse::<u32>().unwrap_or(0)),
         "disas_operand" => generated::disas_operand(&p[1], p[2].parse::<u64>().unwrap_or(0)),
         "disas_constant" => {
